@@ -127,6 +127,34 @@ def replay(p):
                 errs += [abs(a - ref), abs(b - ref)]
             err = max(errs)
             scale = 1 + abs(ref)
+        elif kind == "combine":
+            nd2, nb2, nm2 = p["cfg2"]
+            pdf = TR.make_real_pdf(["a", "b"], th0, F)
+            w, wb, v = g("w", nd), g("wb", nb, -1.0), g("v", nm)
+            w2, v2 = g("x", nd2), g("y", nm2)
+            data = TR.events(list(range(nd)), w)
+            bg = TR.events(list(range(100, 100 + nb)), wb) if nb else None
+            mc = TR.events(list(range(200, 200 + nm)), v)
+            data2 = TR.events(list(range(300, 300 + nd2)), w2)
+            mc2 = TR.events(list(range(400, 400 + nm2)), v2)
+            model = Model(pdf)
+            F2 = dict(F)
+            # the second data set's events are numbered 300.. / 400..: reuse the oracle with shifted indices
+            Fs = {("F", i): F.get(("F", 300 + i), {}) for i in range(nd2)}
+            Fs.update({("F", 200 + j): F.get(("F", 400 + j), {}) for j in range(nm2)})
+            ref1 = _oracle(F, "F", th0, w, wb, v, nd, nb, nm)
+            ref2 = _oracle(Fs, "F", th0, w2, [], v2, nd2, 0, nm2)
+            mu, sg = float(m.get("mu", 0.0)), float(m.get("sigma", 1.0))
+            pen = (th0["a"] - mu) ** 2 / (2 * sg * sg)
+            f1 = FCN(model, data, mc, bg=bg, batch=2)
+            f2 = FCN(model, data2, mc2, batch=2)
+            comb = CombineFCN(fcns=[f1, f2])
+            errs = [abs(float(comb({})) - ref1 - ref2), abs(float(comb.nll_grad({})[0]) - ref1 - ref2)]
+            gc = {"a": (mu, sg)}
+            combc = CombineFCN(fcns=[FCN(model, data, mc, bg=bg, batch=2, gauss_constr=gc), FCN(model, data2, mc2, batch=2, gauss_constr=gc)], gauss_constr=gc)
+            errs += [abs(float(combc({})) - ref1 - ref2 - pen), abs(float(combc.nll_grad({})[0]) - ref1 - ref2 - pen)]
+            err = max(errs)
+            scale = 1 + abs(ref1 + ref2)
         else:
             return {"reproduced": False, "error": "replay for kind %s not implemented" % kind}
     except Exception as e:  # the real code failed on this input
